@@ -96,6 +96,15 @@ def ensure_built(clean=False):
                     os.unlink(os.path.join(COQ, fn))
                 except OSError:
                     pass
+        # hpfeeds/broker/auth/json.py (Authenticator.load / get_authkey) -> coq/StoreGen.v (C17, C18); same fail-closed rule
+        rc4, out4, err4, _ = _run(['/venv/bin/python', os.path.join(VERIF, 'harness', 'pytrans4.py')], timeout=120)
+        if rc4 != 0:
+            trans_note += ' pytrans4 failed: ' + (out4 + err4)[-600:]
+            for fn in ('StoreGen.v', 'StoreGen.vo', 'StoreGenEq.vo'):
+                try:
+                    os.unlink(os.path.join(COQ, fn))
+                except OSError:
+                    pass
         mk = os.path.join(COQ, 'Makefile')
         stale = (not os.path.exists(mk)) or os.path.getmtime(mk) < os.path.getmtime(os.path.join(COQ, '_CoqProject'))
         if clean or stale:
